@@ -173,6 +173,16 @@ class MatchDistancePre(Contract):
         return dict(frames=[[[0.5, 0.5]], [] if not n else [[0.5, 0.5]] * int(min(n, 2)), [[0.5, 0.5]]], method="distance",
                     grid=case["grid"] == "given")
 
+    def search(self, case, tier, seed):
+        """inputs on which a wrong metric shows: a droplet crossing the periodic boundary of a fully / partially periodic grid"""
+        for inp in list(self.bounded_inputs(case, tier, seed)) + ([dict(frames=[[[5.7, 1.5]], [[0.2, 1.5]]], radii=[[0.6], [0.6]], method="distance", grid=g,
+                                                                      max_dist=2.0, dim=2) for g in (True, [True, False])] if case["grid"] == "given" else []):
+            res = self.concrete_run(case, inp)
+            if res and res.get("violated"):
+                res.setdefault("inputs", inp)
+                return res
+        return None
+
     def bounded_inputs(self, case, tier, seed):
         yield dict(frames=[[[0.5, 0.5]], [], [[0.5, 0.5]]], method="distance", grid=case["grid"] == "given")
         yield dict(frames=[[], [[0.5, 0.5]], []], method="distance", grid=case["grid"] == "given")
@@ -198,7 +208,8 @@ def run_tracking(inputs):
     dim = inputs.get("dim", 2)
     rad = inputs.get("radius", 0.4)
     radii = inputs.get("radii")
-    grid = pde.UnitGrid([6] * dim, periodic=True) if inputs.get("grid") else None
+    gsel = inputs.get("grid")
+    grid = None if not gsel else pde.UnitGrid([6] * dim, periodic=(True if gsel is True else [bool(x) for x in gsel][:dim]))
     times = inputs.get("times") or list(range(len(frames)))
     ems = []
     for fi_, fr in enumerate(frames):
@@ -359,6 +370,14 @@ class TrackingOracle(Bounded):
                     for grid in (False, True):
                         one(dict(frames=[[[x] for x in prev], [[x + 0.05] for x in cur]], radius=0.3, method="distance", grid=grid,
                                  max_dist=md, dim=1), ("lat2", prev, cur, md, grid))
+        # a droplet crossing the periodic boundary of a PARTIALLY periodic grid (2-d), both methods, with a cut-off
+        for mask in ([True, False], [False, True]):
+            ax = mask.index(True)
+            for y in (1.5, 3.0):
+                a, b = [0.0, 0.0], [0.0, 0.0]
+                a[ax], b[ax], a[1 - ax], b[1 - ax] = 5.7, 0.2, y, y
+                for method, md in (("distance", 2.0), ("distance", None), ("overlap", None)):
+                    one(dict(frames=[[a], [b]], radii=[[0.6], [0.6]], method=method, grid=mask, max_dist=md, dim=2), ("cross", tuple(mask), y, method, md))
         rng = np.random.default_rng(seed + 99)
         for t in range(150 if tier == "quick" else 3000):
             dim = int(rng.integers(1, 4))
@@ -387,7 +406,10 @@ class TrackingOracle(Bounded):
                 tms = sorted(set(tms))
                 if len(tms) != nf:
                     tms = list(range(-1, nf - 1))
-            one(dict(frames=frames, radii=radii, method=["overlap", "distance"][t % 2], grid=bool(t % 3 == 0), dim=dim,
+            gsel = bool(t % 3 == 0)
+            if t % 3 == 1 and dim >= 2:
+                gsel = [True] + [False] * (dim - 1) if t % 2 else [False] * (dim - 1) + [True]      # partially periodic grid
+            one(dict(frames=frames, radii=radii, method=["overlap", "distance"][t % 2], grid=gsel, dim=dim,
                      max_dist=[None, 1.0, 0.5][t % 3] if t % 2 else None, times=tms), ("rnd", t))
         return dict(evaluations=ev, distinct=len(distinct), violations=list(viol.values()))
 
